@@ -19,7 +19,7 @@
 (* or the two fixeddict types exchanged ("swapped").                                             *)
 (* The alphabet is a parameter (OpNames, PrimKinds, ... in the cfg): mc/SerDes.cfg is the        *)
 (* general box, mc/SerDesLists.cfg a reduced alphabet (lists of typed subcontexts) with longer   *)
-(* programs.                                                                                     *)
+(* programs, mc/SerDesFaults.cfg every fault kind in nested and typed contexts.                  *)
 (* Python has aliasing (the parent dictionary holds a reference to the child); here the child is *)
 (* written into its parent when entered and again when left, and Assemble gives the root view.   *)
 EXTENDS BitIOOps, TLC, FiniteSets
@@ -33,6 +33,8 @@ CONSTANTS MaxLen, MaxDepth,
           EnterTargets,   \* subset of {"s", "m"}
           Types,          \* arguments of set_context_type: subset of {"dict", "TA", "TB"}
           FaultKinds,     \* subset of AllFaultKinds
+          LastIsVerify,   \* TRUE: only verify_complete may be the MaxLen-th call (focused configurations: the
+                          \* calls of the last level are already covered by the general one)
           Givens          \* subset of {"typed", "plain", "swapped"}
 
 VARIABLES cur,     \* [typ, ts (set_context_type called here), m : target -> tagged value, idx : target -> -1 (used) | next list index]
@@ -203,6 +205,7 @@ Live == Len(hist) < MaxLen /\ out.err = "none" /\ inp.op # "verify"
 (* use inside an action (no caching there), which made this model 5 times slower.                      *)
 Call(o) ==
   /\ Live
+  /\ LastIsVerify => Len(hist) < MaxLen - 1
   /\ o.op = "leave" => Len(stack) > 0
   /\ o.op = "enter" => Len(stack) < MaxDepth
   /\ \E d \in {Do(o)} :
